@@ -348,6 +348,46 @@ def clause_digit_capacity(facts, rep):
     rep.require(n >= 12, 'C02.digit-capacity: %d subscripts of the digit array found (>= 12 expected)' % n)
 
 
+def clause_setup_bound(facts, rep):
+    """'succeeds for every valid text' / the handler never refuses a node of a valid text: SetUp() is evaluated
+    (sv/minterp.py) for text lengths 0..400 and a few large ones; the node-stack capacity it records must be at least
+    the largest number of simultaneously live nodes a valid text of that length can have, (len + 1) / 2 - the root
+    costs one byte, every further node at least two ("[1,1,...,1]", "[[[...[1]...]]]")."""
+    from ..minterp import Interp, Unsupported, UndefinedBehaviour
+    n = 0
+    for f in facts.functions:
+        if f.short != 'SetUp' or f.cls_qn not in ('sonic_json::SAXHandler', 'sonic_json::SchemaHandler') or len(f.params) != 1:
+            continue
+        if 'SAlloc' in f.name or 'SimpleAllocator' in f.name:
+            continue
+        rep.fn(f)
+        bad = None
+        cnt = 0
+        try:
+            for L in list(range(0, 401)) + [1 << 16, (1 << 16) + 1, (1 << 32) + 1, (1 << 40) + 7]:
+                def hook(e, args, env, members, L=L):
+                    if e.get('cname') in ('size', 'length'):
+                        return L
+                    if e.get('cname') == 'realloc':
+                        return 0x10000
+                    return None
+                for prev_cap in (0, 16):
+                    mem = {'st_': 0 if prev_cap == 0 else 0x8000, 'cap_': prev_cap, 'np_': 0}
+                    r = Interp(f, facts, call_hook=hook).run({f.params[0]['id']: ('sv', L)}, mem)
+                    cnt += 1
+                    cap = r[2].get('cap_')
+                    need_ = (L + 1) // 2
+                    if not r[0] or cap is None or cap < need_:
+                        bad = bad or 'text length %d (previous capacity %d): SetUp returns %s with capacity %s, a valid text of that length can have %d live nodes' % (L, prev_cap, r[0], cap, need_)
+        except UndefinedBehaviour as ex:
+            bad = 'undefined behaviour: %s' % ex
+        except Unsupported as ex:
+            raise AnalysisBroken('C02: %s cannot be evaluated: %s' % (f.name, ex))
+        n += 1
+        rep.check(bad is None, 'E5.setup-bound', f.qn, 'capacity after SetUp(len) >= (len + 1) / 2 for %d evaluated lengths' % cnt, f.loc, bad or '', facts.config)
+    rep.require(n >= 2, 'C02: SetUp of the SAX handlers found: %d (2 expected)' % n)
+
+
 def run(rep, tier):
     configs = ['K1'] if tier == 'quick' else ['K1', 'K2', 'K3', 'K4', 'K7']
     for cfg in configs:
@@ -368,6 +408,10 @@ def run(rep, tier):
         c16.chunk_size_rule(facts, rep)
         c16.clause_a(facts, rep, '')       # a pool on a user buffer: the capacity accounts for the alignment skip
         clause_digit_capacity(facts, rep)
+        clause_setup_bound(facts, rep)
+        # a malformed \\u escape must be rejected or it swallows the sentinel quote: the encoder's range test (shared with C05)
+        from . import c05 as _c05
+        _c05.clause_c(facts, rep, tier)
         c16.round_up_rule(facts, rep)      # ... and the rounded size is never below the request
     rep.min_instances('E1.status', 20)
     rep.trust('clang 14 parser/template instantiation/CFG builder', 'sv/primitives.py load widths',
